@@ -266,6 +266,20 @@ CHECKS["C06"] = (
     "DESIGN.md §4 C06",
 )
 
+CHECKS["C07"] = (
+    "E-CH",
+    "CrossHair/z3 symbolic execution of parse_object and dump on four parsers that declare the same group in four styles, fed the same solver-chosen value kinds with symbolic ints; relational comparison of the four outcomes; solver-enumerated concrete inputs through five text channels",
+    "Bounded symbolic model checking of the real code, relational. For a field list (a required List[int], an int with default, an "
+    "Optional[float]; thorough adds bool, str and a nested dataclass) four parsers are built with the real API: dotted add_argument "
+    "calls, a dataclass-typed argument, add_class_arguments under the key, an inner parser attached with ActionParser. The solver picks "
+    "per field one of 9 value kinds (absent, int, bool, None, lists of 0-2, str, float) with symbolic ints and whether an empty group is "
+    "given; the four parse_object outcomes must agree (all reject, or equal nested values) and so must the dicts dump serialises "
+    "(path trees exhausted). The same through argv dotted options, '+' appends, whole-group JSON (three styles), a config string and "
+    "environment variables on concrete values, including the dump text.",
+    "Trusted: CrossHair/z3; comparison as nested plain values. Outside: other field lists, instantiation of the group, help text.",
+    "DESIGN.md §4 C07",
+)
+
 NOT_APPLICABLE = {
     "C13": "the resolver's only input is source code on disk (inspect.getsource/ast.parse/import); a symbolic program cannot be "
     "represented for that code and types/defaults are part of the program, so no dimension of the quantifier can be a solver variable",
